@@ -73,3 +73,41 @@ package hashbidimap
 //@   requires Inv(m)
 //@   modifies map(m.forwardMap.m), map(m.inverseMap.m)
 //@   ensures [C10 C15 C17] Inv(m) && hashmap.Card(m.forwardMap) == 0 && (forall k like keyof(m.forwardMap.m) :: !Fwd(m, k))
+
+// ---- JSON (C11 round trip, C12 replace / sound / atomic) ----
+
+//@ func Map.ToJSON
+//@   requires Inv(m)
+//@   modifies nothing
+//@   ensures [C11 C17 C18] result1 == nil && fresh(arr(result0)) && jobj_kind(result0, keyof(m.forwardMap.m), valof(m.forwardMap.m)) == 3 && jobj_card(result0, keyof(m.forwardMap.m), valof(m.forwardMap.m)) == hashmap.Card(m.forwardMap)
+//@   ensures [C11] content: forall k like keyof(m.forwardMap.m) :: (jobj_has(result0, k, valof(m.forwardMap.m)) <==> Fwd(m, k)) && (Fwd(m, k) ==> jobj_val(result0, k, valof(m.forwardMap.m)) == FwdVal(m, k))
+
+//@ func Map.MarshalJSON
+//@   requires Inv(m)
+//@   modifies nothing
+//@   ensures [C11 C17 C18] result1 == nil && fresh(arr(result0)) && jobj_kind(result0, keyof(m.forwardMap.m), valof(m.forwardMap.m)) == 3 && jobj_card(result0, keyof(m.forwardMap.m), valof(m.forwardMap.m)) == hashmap.Card(m.forwardMap)
+//@   ensures [C11] content: forall k like keyof(m.forwardMap.m) :: (jobj_has(result0, k, valof(m.forwardMap.m)) <==> Fwd(m, k)) && (Fwd(m, k) ==> jobj_val(result0, k, valof(m.forwardMap.m)) == FwdVal(m, k))
+
+//@ -- the loaded map is one-to-one: of the document's pairs, those survive whose value is not taken by a later pair (C10, C12)
+//@ func Map.FromJSON
+//@   requires Inv(m)
+//@   modifies map(m.forwardMap.m), map(m.inverseMap.m)
+//@   ensures [C10 C12 C17] Inv(m) && (result == nil <==> jobj_kind(data, keyof(m.forwardMap.m), valof(m.forwardMap.m)) >= 2)
+//@   ensures [C12] atomic: result != nil ==> (forall k like keyof(m.forwardMap.m) :: (Fwd(m, k) <==> old(Fwd(m, k))) && (Fwd(m, k) ==> FwdVal(m, k) == old(FwdVal(m, k))))
+//@   ensures [C11 C12] loaded-only: jobj_kind(data, keyof(m.forwardMap.m), valof(m.forwardMap.m)) == 3 ==> (forall k like keyof(m.forwardMap.m) :: Fwd(m, k) ==> jobj_has(data, k, valof(m.forwardMap.m)) && FwdVal(m, k) == jobj_val(data, k, valof(m.forwardMap.m)))
+//@   ensures [C12] null: jobj_kind(data, keyof(m.forwardMap.m), valof(m.forwardMap.m)) == 2 ==> hashmap.Card(m.forwardMap) == 0
+//@   loop 1:
+//@     invariant Inv(m) && err == nil && jobj_kind(data, keyof(m.forwardMap.m), valof(m.forwardMap.m)) >= 2
+//@     invariant jobj_kind(data, keyof(m.forwardMap.m), valof(m.forwardMap.m)) == 3 ==> elements != nil && (forall k like keyof(m.forwardMap.m) :: has(elements, k) <==> jobj_has(data, k, valof(m.forwardMap.m))) && (forall k like keyof(m.forwardMap.m) :: has(elements, k) ==> elements[k] == jobj_val(data, k, valof(m.forwardMap.m)))
+//@     invariant jobj_kind(data, keyof(m.forwardMap.m), valof(m.forwardMap.m)) == 2 ==> elements == nil && hashmap.Card(m.forwardMap) == 0
+//@     invariant forall k like keyof(m.forwardMap.m) :: Fwd(m, k) ==> has(elements, k) && FwdVal(m, k) == elements[k]
+//@     decreases len(elements) - nvisited1
+
+//@ -- the loaded map is one-to-one: of the document's pairs, those survive whose value is not taken by a later pair (C10, C12)
+//@ func Map.UnmarshalJSON
+//@   requires Inv(m)
+//@   modifies map(m.forwardMap.m), map(m.inverseMap.m)
+//@   ensures [C10 C12 C17] Inv(m) && (result == nil <==> jobj_kind(bytes, keyof(m.forwardMap.m), valof(m.forwardMap.m)) >= 2)
+//@   ensures [C12] atomic: result != nil ==> (forall k like keyof(m.forwardMap.m) :: (Fwd(m, k) <==> old(Fwd(m, k))) && (Fwd(m, k) ==> FwdVal(m, k) == old(FwdVal(m, k))))
+//@   ensures [C11 C12] loaded-only: jobj_kind(bytes, keyof(m.forwardMap.m), valof(m.forwardMap.m)) == 3 ==> (forall k like keyof(m.forwardMap.m) :: Fwd(m, k) ==> jobj_has(bytes, k, valof(m.forwardMap.m)) && FwdVal(m, k) == jobj_val(bytes, k, valof(m.forwardMap.m)))
+//@   ensures [C12] null: jobj_kind(bytes, keyof(m.forwardMap.m), valof(m.forwardMap.m)) == 2 ==> hashmap.Card(m.forwardMap) == 0
